@@ -8,8 +8,9 @@ import FP.Model.Syntax
 import FP.Model.Printer
 import FP.Lemmas.Syntax
 import FP.Lemmas.SyntaxFull
+import FP.Lemmas.Lexer
 namespace FP.Props.C11
-open FP FP.Model.Syntax FP.Gen.Grammar FP.Lemmas.Syntax
+open FP FP.Model.Syntax FP.Gen.Grammar FP.Lemmas.Syntax FP.Lemmas.Lexer
 
 /-- the precedence levels of the grammar file, loosest first, are the thirteen levels of the
     FHIRPath specification in the specification's order -/
@@ -115,6 +116,110 @@ theorem type_operator_is_a_suffix :
     parse "1 + x is T * 2" = some (.bin "*" (.typ "is" (.bin "+" (.lit (.num "1")) (.member "x")) ["T"]) (.lit (.num "2"))) ∧
     parse "x as T[0]" = some (.idx (.typ "as" (.member "x") ["T"]) (.lit (.num "0"))) ∧
     parse "a = x is T + 1" = some (.bin "=" (.member "a") (.bin "+" (.typ "is" (.member "x") ["T"]) (.lit (.num "1")))) := by
+  decide +kernel
+
+
+/-! ### token gaps: white space, newlines and comments
+
+A decorated source is a list of pieces — white-space characters, block comments, line comments and
+tokens with their source text (`Written`).  `SrcOK` asks that no token is followed directly by a
+character that would extend it or fuse with it (`follow`: a digit after a number, a letter after a
+word, `=` after `<`, `*` or `/` after `/`, …) — white space always qualifies, and so does a comment
+except directly after `/` — and that every line comment is followed by a line end or the end of the
+input.  Gaps may therefore be empty wherever the tokens stay apart. -/
+
+/-- THE LEXER DROPS THE GAPS: for every decorated source, whatever the white space, newlines and
+    comments between its tokens, the lexer returns exactly its tokens -/
+theorem lexer_drops_gaps (ps : List Piece) (h : SrcOK ps) : lex (String.ofList (srcText ps)) = srcToks ps :=
+  lex_pieces ps h
+
+/-- GAP INSENSITIVITY: two decorations of the same token sequence have the same parse -/
+theorem gaps_never_change_the_outcome (ps qs : List Piece) (hp : SrcOK ps) (hq : SrcOK qs)
+    (h : srcToks ps = srcToks qs) : parse (String.ofList (srcText ps)) = parse (String.ofList (srcText qs)) := by
+  unfold parse
+  rw [lex_pieces ps hp, lex_pieces qs hq, h]
+
+theorem srcToks_not_bad (ps : List Piece) (h : SrcOK ps) : ∀ t ∈ srcToks ps, ∀ s, t ≠ .bad s := by
+  induction ps with
+  | nil => intro t ht; cases ht
+  | cons p ps ih =>
+    obtain ⟨hp, _, hs⟩ := h
+    have e : srcToks (p :: ps) = p.toks ++ srcToks ps := by simp [srcToks]
+    rw [e]
+    intro t ht
+    rcases List.mem_append.mp ht with h1 | h1
+    · cases p with
+      | tok t' txt =>
+        simp only [Piece.toks, List.mem_singleton] at h1
+        subst h1; exact written_not_bad hp
+      | ws c => cases h1
+      | block b => cases h1
+      | line b => cases h1
+    · exact ih hs t h1
+
+/-- END TO END: every decoration of the minimal rendering of a tree — any white space, newlines and
+    comments in any gap — is parsed, from its characters, to that tree -/
+theorem decorated_rendering_roundtrip (t : Ex) (h : WfE t) (ps : List Piece) (hok : SrcOK ps)
+    (hts : srcToks ps = printAt 0 t) : parse (String.ofList (srcText ps)) = some t := by
+  have hl := lex_pieces ps hok
+  have hb := srcToks_not_bad ps hok
+  rw [hts] at hl hb
+  simp only [parse, hl]
+  rw [if_neg]
+  · exact minimal_rendering_roundtrip_all t h
+  · intro hany
+    obtain ⟨x, hx, hm⟩ := List.any_eq_true.mp hany
+    have := hb x hx
+    cases x <;> simp at hm
+    exact this _ rfl
+
+/-- … and so is every decoration of its fully parenthesised rendering -/
+theorem decorated_full_rendering_roundtrip (t : Ex) (h : WfE t) (ps : List Piece) (hok : SrcOK ps)
+    (hts : srcToks ps = printFull t) : parse (String.ofList (srcText ps)) = some t := by
+  have hl := lex_pieces ps hok
+  have hb := srcToks_not_bad ps hok
+  rw [hts] at hl hb
+  simp only [parse, hl]
+  rw [if_neg]
+  · exact full_rendering_roundtrip t h
+  · intro hany
+    obtain ⟨x, hx, hm⟩ := List.any_eq_true.mp hany
+    have := hb x hx
+    cases x <;> simp at hm
+    exact this _ rfl
+
+/-- white space always separates tokens, and so does the start of a comment except after `/` -/
+theorem white_space_and_comments_separate {t : Tok} {txt : List Char} (h : Written t txt) (x : Char)
+    (hx : isWs x = true ∨ (x = '/' ∧ t ≠ .kw "/")) : follow t x = false := by
+  rcases hx with hx | ⟨hx, ht⟩
+  · exact follow_of_stop h x (by simp [isStop, hx]) (fun _ => hx)
+  · subst hx; exact follow_of_stop h '/' (by decide) (fun h' => absurd h' ht)
+
+/-- the hypotheses are satisfiable: `1 /* c */ + // d ⏎ x` with its pieces … -/
+example : SrcOK [.tok (.num "1") "1".toList, .ws ' ', .block " c ".toList, .ws ' ', .tok (.kw "+") ['+'], .ws ' ',
+    .line " d".toList, .ws '\n', .tok (.ident "x") "x".toList] := by
+  have w : ∀ c, isWs c = true → (Piece.ws c).OK := fun _ h => h
+  refine ⟨.int "1" '1' [] (by decide) (by decide) (by simp), ?_, w _ (by decide), trivial,
+    (by show blockOK _ = true; decide), trivial, w _ (by decide), trivial,
+    .sym1 '+' (by decide), ?_, w _ (by decide), trivial, (by show lineOK _ = true; decide), ?_, w _ (by decide), trivial,
+    .ident "x" (by decide) (by decide), ?_, trivial⟩
+  · intro c hc; cases hc; decide
+  · intro c hc; cases hc; decide
+  · intro c hc; cases hc; exact Or.inr rfl
+  · intro c hc; cases hc
+
+/-- … and `(a+1)*b` with no gap at all: adjacent tokens that cannot fuse need no separator -/
+example : SrcOK [.tok (.kw "(") ['('], .tok (.ident "a") "a".toList, .tok (.kw "+") ['+'], .tok (.num "1") "1".toList,
+    .tok (.kw ")") [')'], .tok (.kw "*") ['*'], .tok (.ident "b") "b".toList] := by
+  refine ⟨.sym1 '(' (by decide), ?_, .ident "a" (by decide) (by decide), ?_, .sym1 '+' (by decide), ?_,
+    .int "1" '1' [] (by decide) (by decide) (by simp), ?_, .sym1 ')' (by decide), ?_, .sym1 '*' (by decide), ?_,
+    .ident "b" (by decide) (by decide), ?_, trivial⟩ <;>
+  · intro c hc; cases hc <;> decide
+
+/-- the side condition on `/` is needed: a comment directly after the division operator fuses with
+    it into a line comment (kernel evaluation of the model lexer; the same source is in the
+    correspondence stream) -/
+theorem comment_after_slash_fuses : lex "4 //* c */ 2" = [.num "4"] ∧ lex "4 / /* c */ 2" = [.num "4", .kw "/", .num "2"] := by
   decide +kernel
 
 end FP.Props.C11
